@@ -283,6 +283,19 @@ class Program(object):
         pref = (os.path.join(REPO, "src") + os.sep, os.path.join(REPO, "include") + os.sep, os.path.join(VERIF, "inst") + os.sep)
         return [f for f in self.funcs.values() if f.file.startswith(pref)]
 
+    def flat_library_funcs(self):
+        """The library's functions as the rules should see them when they scan for a construct wherever it is: every function (and lambda)
+        that existed when the rules were confirmed, flattened over the helpers introduced since (their code is seen inside their callers,
+        with parameters bound to the callers' arguments); the new helpers themselves are not listed."""
+        names, _lams = self.reference()
+        out = []
+        for f in self.library_funcs():
+            if names is not None and not f.is_lambda and f.base not in names and f.file.startswith((os.path.join(REPO, "src") + os.sep, os.path.join(REPO, "include") + os.sep)):
+                if self.call_sites(f.base):
+                    continue            # a new helper: seen through its callers
+            out.append(self.flat(f) if not f.is_lambda else f)
+        return out
+
     # ---- lookup ----
     def find(self, base, min_count=1, exact=False):
         """Functions whose template-stripped qualified name equals `base`."""
